@@ -22,7 +22,7 @@ func owns(prop, oracle string) bool {
 		// installed": what the stacked result of an update IS, is the fresh
 		// stack of the slots at that moment (a version built on a stale slot is
 		// an update installed although its real stack may have been rejected)
-		return oracle == "C05.stale-slot" || oracle == "C05.fresh-stack"
+		return oracle == "C05.stale-slot" || oracle == "C05.fresh-stack" || oracle == "C05.model"
 	case "C09":
 		// "OnWatchedError ... withheld only while the delay is in force and the
 		// suppress option is set": rejections after enabling must be delivered
